@@ -160,10 +160,20 @@ fn case(cx: &mut CaseCtx, input: Input) -> CaseResult {
         }
         "err-nonexistent-path" => {
             error_expected = true;
+            // a path that is not there; one that runs through a regular file; a symbolic link to itself
+            let bad = match pick(&mut u, 3) {
+                0 => "nope.slice",
+                1 => "f0.slice/inner.slice",
+                _ => {
+                    let _ = std::os::unix::fs::symlink("loop.slice", dir.path.join("loop.slice"));
+                    "loop.slice"
+                }
+            };
+            cx.label(format!("unreadable-path:{bad}"));
             if pick(&mut u, 2) == 0 {
-                groups.push(vec![os("-R"), os("nope.slice")]);
+                groups.push(vec![os("-R"), os(bad)]);
             } else {
-                groups.push(vec![os("nope.slice")]);
+                groups.push(vec![os(bad)]);
             }
         }
         "err-non-slice-path" => {
@@ -233,7 +243,7 @@ fn case(cx: &mut CaseCtx, input: Input) -> CaseResult {
     } else {
         let is_ordered = |g: &Vec<std::ffi::OsString>| {
             let t = g.last().map(|s| s.to_string_lossy().into_owned()).unwrap_or_default();
-            t.ends_with(".slice") || t.contains("gen") || t == "notes.txt" || t == "adir"
+            t.ends_with(".slice") || t.contains("gen") || t == "notes.txt" || t == "adir" || t.contains("inner.slice")
         };
         let (ordered, mut free): (Vec<_>, Vec<_>) = groups.into_iter().partition(is_ordered);
         // insert every free group at a drawn position among the ordered ones
